@@ -10,12 +10,17 @@ use crate::ogre_std::{
         },
         ogre_sync,
     };
+#[cfg(not(feature = "verif"))]
 use std::{
     time::Duration,
     sync::atomic::{AtomicU32, AtomicBool, Ordering::Relaxed},
     pin::Pin,
     task::Waker,
 };
+#[cfg(feature = "verif")]
+use std::{time::Duration, pin::Pin, task::Waker};
+#[cfg(feature = "verif")]
+use crate::verif::atomic::{AtomicU32, AtomicBool, Ordering::Relaxed};
 use std::cell::UnsafeCell;
 use minstant::Instant;
 
@@ -89,6 +94,7 @@ StreamsManagerBase<MAX_STREAMS> {
                            self.streams_manager_name, self.created_streams_count.load(Relaxed), self.finished_streams_count.load(Relaxed)),
         };
         let keep_streams_running = unsafe { &mut * self.keep_streams_running.get() };
+        #[cfg(feature = "verif")] crate::verif::yield_point_w("sm.keep_running.set");
         keep_streams_running[stream_id as usize] = true;
         self.sync_vacant_and_used_streams();
         stream_id
@@ -98,11 +104,13 @@ StreamsManagerBase<MAX_STREAMS> {
     #[inline(always)]
     pub fn wake_stream(&self, stream_id: u32) {
         let wakers = unsafe { &* self.wakers.get() };
+        #[cfg(feature = "verif")] crate::verif::yield_point_r("sm.wakers.read");
         match unsafe {wakers.get_unchecked(stream_id as usize)} {
             Some(waker) => waker.wake_by_ref(),
             None => {
                 // try again, syncing
                 ogre_sync::lock(&self.wakers_lock);
+                #[cfg(feature = "verif")] crate::verif::yield_point_r("sm.wakers.reread");
                 if let Some(waker) = unsafe {wakers.get_unchecked(stream_id as usize)} {
                     waker.wake_by_ref();
                 }
@@ -126,6 +134,7 @@ StreamsManagerBase<MAX_STREAMS> {
     pub fn keep_stream_running(&self, stream_id: u32) -> bool {
         unsafe {
             let keep_streams_running = &* self.keep_streams_running.get();
+            #[cfg(feature = "verif")] crate::verif::yield_point_r("sm.keep_running.read");
             *keep_streams_running.get_unchecked(stream_id as usize)
         }
     }
@@ -148,6 +157,7 @@ StreamsManagerBase<MAX_STREAMS> {
     /// Also guarantees that it will be awoken to react to the command immediately
     pub fn cancel_stream(&self, stream_id: u32) {
         let keep_streams_running = unsafe { &mut * self.keep_streams_running.get() };
+        #[cfg(feature = "verif")] crate::verif::yield_point_w("sm.keep_running.clear");
         keep_streams_running[stream_id as usize] = false;
         self.wake_stream(stream_id);
     }
@@ -157,6 +167,7 @@ StreamsManagerBase<MAX_STREAMS> {
     pub fn cancel_all_streams(&self) {
         let used_streams = unsafe { &* self.used_streams.get() };
         for stream_id in used_streams.iter() {
+            #[cfg(feature = "verif")] crate::verif::yield_point_r("sm.used.read");
             if *stream_id == u32::MAX {
                 break
             }
@@ -173,6 +184,7 @@ StreamsManagerBase<MAX_STREAMS> {
             () => {
                 let waker = waker.clone();
                 ogre_sync::lock(&self.wakers_lock);
+                #[cfg(feature = "verif")] crate::verif::yield_point_w("sm.wakers.write");
                 let waker = unsafe { wakers.get_unchecked_mut(stream_id as usize).insert(waker) };
                 ogre_sync::unlock(&self.wakers_lock);
                 // the producer might have just woken the old version of the waker,
@@ -182,6 +194,7 @@ StreamsManagerBase<MAX_STREAMS> {
             }
         }
 
+        #[cfg(feature = "verif")] crate::verif::yield_point_r("sm.wakers.check");
         match unsafe { wakers.get_unchecked_mut(stream_id as usize) } {
             Some(registered_waker) => {
                 if !registered_waker.will_wake(waker) {
@@ -207,6 +220,7 @@ StreamsManagerBase<MAX_STREAMS> {
     pub fn report_stream_dropped(&self, stream_id: u32) {
         let wakers = unsafe { &mut * self.wakers.get() };
         ogre_sync::lock(&self.wakers_lock);
+        #[cfg(feature = "verif")] crate::verif::yield_point_w("sm.wakers.clear");
         wakers[stream_id as usize] = None;
         ogre_sync::unlock(&self.wakers_lock);
         self.finished_streams_count.fetch_add(1, Relaxed);
@@ -237,18 +251,21 @@ StreamsManagerBase<MAX_STREAMS> {
                 Some(next_vacant_stream_id) => {
                     for used_stream_id in i .. *next_vacant_stream_id {
                         last_used_stream_id += 1;
+                        #[cfg(feature = "verif")] crate::verif::yield_point_w("sm.used.write");
                         unsafe { *used_streams.get_unchecked_mut(last_used_stream_id as usize)  = used_stream_id };
                     }
                     i = *next_vacant_stream_id + 1;
                 }
                 None => {
                     last_used_stream_id += 1;
+                    #[cfg(feature = "verif")] crate::verif::yield_point_w("sm.used.write");
                     unsafe { *used_streams.get_unchecked_mut(last_used_stream_id as usize) = i };
                     i += 1;
                 }
             }
         }
         for i in (last_used_stream_id + 1) as usize .. MAX_STREAMS {
+            #[cfg(feature = "verif")] crate::verif::yield_point_w("sm.used.write");
             unsafe { *used_streams.get_unchecked_mut(i) = u32::MAX };
         }
         ogre_sync::unlock(&self.streams_lock);
@@ -260,6 +277,7 @@ StreamsManagerBase<MAX_STREAMS> {
             let pending_items_count = pending_items_counter();
             if pending_items_count > 0 {
                 self.wake_all_streams();
+                #[cfg(feature = "verif")] crate::verif::spin_hint("sm.sleep");
                 tokio::time::sleep(Duration::from_millis(1)).await;
             } else {
                 break 0
@@ -292,6 +310,7 @@ StreamsManagerBase<MAX_STREAMS> {
         self.cancel_stream(stream_id);
         loop {
             self.wake_stream(stream_id);
+            #[cfg(feature = "verif")] crate::verif::spin_hint("sm.sleep");
             tokio::time::sleep(Duration::from_millis(1)).await;
             if is_vacant() {
                 break true
@@ -312,6 +331,7 @@ StreamsManagerBase<MAX_STREAMS> {
             if timeout != Duration::ZERO && start.elapsed() > timeout {
                 break
             }
+            #[cfg(feature = "verif")] crate::verif::spin_hint("sm.sleep");
             tokio::time::sleep(Duration::from_millis(1)).await;
         }
         self.running_streams_count()
